@@ -214,3 +214,138 @@ func checkC11(cc Case, r *simrt.Result) *Outcome {
 func init() {
 	Props["C11"] = &Scenario{Gen: genC11, Check: checkC11}
 }
+
+// ---------- C14: multiple / parallel-multiple catch events account correctly over any history ----------
+
+func genC14(d *Draw) Case {
+	defs := &Definitions{}
+	g := &Graph{ID: "P1", Executable: true}
+	defs.Procs = []*Graph{g}
+	defs.Signals = []string{"s1", "s2", "sX"}
+	defs.Messages = []string{"m1", "m2", "mX"}
+	all := []EventDef{{Kind: "signal", Ref: "s1"}, {Kind: "message", Ref: "m1"}, {Kind: "signal", Ref: "s2"}, {Kind: "message", Ref: "m2"}}
+	nd := 1 + d.N(4)
+	cm := &Node{ID: "CM", Kind: "catch", Parallel: d.N(3) != 0}
+	cm.Relaxed = cm.Parallel // the property bounds the firings of a parallel-multiple catch, it does not fix them
+	// a random subset of nd definitions in random order
+	perm := []int{0, 1, 2, 3}
+	for i := 3; i > 0; i-- {
+		j := d.N(i + 1)
+		perm[i], perm[j] = perm[j], perm[i]
+	}
+	for _, k := range perm[:nd] {
+		cm.Events = append(cm.Events, all[k])
+	}
+	acts := 1 + d.N(3)
+	g.addNode(&Node{ID: "Start", Kind: "start"})
+	g.addNode(&Node{ID: "LM", Kind: "xor"})
+	g.connect(defs, "Start", "LM", nil, -1)
+	g.addNode(cm)
+	g.connect(defs, "LM", "CM", nil, -1)
+	tc := g.addNode(&Node{ID: "TC", Kind: "task", Results: []string{"r_TC", "i_TC"}, Counter: "i_TC"})
+	g.connect(defs, "CM", tc.ID, nil, -1)
+	g.addNode(&Node{ID: "LS", Kind: "xor"})
+	g.connect(defs, "TC", "LS", nil, -1)
+	g.connect(defs, "LS", "LM", &Cond{LtVar: "i_TC", Lt: acts}, -1)
+	g.addNode(&Node{ID: "End", Kind: "end"})
+	df := g.connect(defs, "LS", "End", nil, -1)
+	g.Node("LS").Default = df.ID
+	g.index()
+	pool := append(append([]EventDef{}, cm.Events...), EventDef{Kind: "signal", Ref: "sX"}, EventDef{Kind: "message", Ref: "mX"})
+	if nd < 4 {
+		pool = append(pool, all[perm[3]]) // a definition of another catch: also non-matching here
+	}
+	c := &ProcCase{Buf: d.N(17), Hold: d.N(3)}
+	ne := d.N(10)
+	var evd []string
+	for i := 0; i < ne; i++ {
+		e := pool[d.N(len(pool))]
+		c.Events = append(c.Events, EvPlan{Kind: e.Kind, Ref: e.Ref})
+		evd = append(evd, e.Ref)
+	}
+	var dd []string
+	for _, e := range cm.Events {
+		dd = append(dd, e.Ref)
+	}
+	c.Prog = &Program{Defs: defs, Vars: map[string]any{}, Desc: fmt.Sprintf("catch defs=%v parallelMultiple=%v activations<=%d events=%v", dd, cm.Parallel, acts, evd)}
+	c.Picks = drawPicks(d, 40)
+	c.Meta = map[string]int{"parallel": b2i(cm.Parallel), "ndefs": nd}
+	return c
+}
+
+func checkC14(cc Case, r *simrt.Result) *Outcome {
+	c := cc.(*ProcCase)
+	o := &Outcome{}
+	var vl vlist
+	genericRunViolations("C14", r, &vl)
+	for _, p := range r.Panics {
+		vl.add("C14/panic", "%s", p)
+	}
+	eventCallsReturned("C14", c, &vl)
+	tg := CheckTokenGame("C14", c.Prog, c.env.L.E)
+	vl.v = append(vl.v, tg.Viol...)
+	// counting bounds, from the engine's own traces: EventObservedTrace (the node was listening) and
+	// the node's LeaveTrace (it fired)
+	cm := c.Prog.Defs.Procs[0].Node("CM")
+	matches := make([]int, len(cm.Events))
+	fires := 0
+	var pendingEv [][2]string
+	for _, ev := range c.env.L.E {
+		switch ev.Kind {
+		case "ev":
+			pendingEv = append(pendingEv, [2]string{ev.A, ev.B})
+		case "t:eventobserved":
+			if ev.A == "CM" && len(pendingEv) > 0 {
+				e := pendingEv[0]
+				pendingEv = pendingEv[1:]
+				for i, dff := range cm.Events {
+					if dff.Kind == e[0] && dff.Ref == e[1] {
+						matches[i]++
+						break
+					}
+				}
+			}
+		case "ev-ret":
+			// an event that was not observed (nobody listening) leaves the queue when the next one is sent
+		case "t:leave":
+			if ev.A == "CM" {
+				fires++
+			}
+		}
+		if ev.Kind == "ev" && len(pendingEv) > 1 {
+			pendingEv = pendingEv[len(pendingEv)-1:]
+		}
+	}
+	if cm.Parallel && len(cm.Events) > 1 && len(tg.Viol) == 0 {
+		min, max := matches[0], matches[0]
+		for _, n := range matches {
+			if n < min {
+				min = n
+			}
+			if n > max {
+				max = n
+			}
+		}
+		if fires > min {
+			vl.add("C14/fired-too-often", "parallel-multiple catch fired %d time(s) although its least-matched definition was matched only %d time(s) while it listened (matches per definition: %v)", fires, min, matches)
+		}
+		if min == max && fires != min {
+			vl.add("C14/miscounted", "every definition was matched exactly %d time(s) while the catch listened, it fired %d time(s)", min, fires)
+		}
+	}
+	// sequential cross-check of the satisfier objects over the same history (no schedule involved)
+	if msg := satisfierCrossCheck(c, cm); msg != "" {
+		vl.add("C14/satisfier", "%s", msg)
+	}
+	o.Viol = vl.v
+	o.Nontrivial = r.Switches > 0 && len(c.Events) > 0
+	probe(o, "parallel-multiple", cm.Parallel && len(cm.Events) > 1)
+	probe(o, "fired", fires > 0)
+	probe(o, "re-armed", fires > 1)
+	o.Sample = map[string]any{"program": c.Prog.Desc, "matches_per_definition": matches, "fires": fires}
+	return o
+}
+
+func init() {
+	Props["C14"] = &Scenario{Gen: genC14, Check: checkC14}
+}
